@@ -97,7 +97,7 @@ impl ConfigSpec
 pub const MACRO_NAMES: &[&str] = &["info", "warn", "error", "debug", "trace", "info2", "infos", "xinfo", "log_it", "my_info", "_w", "élog", "警告", "𠮷w"];
 pub const MODULES: &[&str] = &["log", "tracing", "my::logger", "a::b::c", "slog", "crate::util::log"];
 
-/// 1..=4 configured macros with distinct names.
+/// 1..=4 configured macros (distinct (module, name) pairs; names may repeat across modules).
 pub fn macro_set() -> BoxedStrategy<Vec<MacroCfg>>
 {
     (vec((0usize..MACRO_NAMES.len(), 0usize..MODULES.len()), 1..=4))
@@ -106,12 +106,11 @@ pub fn macro_set() -> BoxedStrategy<Vec<MacroCfg>>
             for (n, m) in v
             {
                 let name = MACRO_NAMES[n].to_string();
-                if !out.iter().any(|x| x.name == name)
+                let module = MODULES[m].to_string();
+                // the same macro name may be configured for several modules; exact duplicates are dropped
+                if !out.iter().any(|x| x.name == name && x.module == module)
                 {
-                    out.push(MacroCfg {
-                        module: MODULES[m].to_string(),
-                        name,
-                    });
+                    out.push(MacroCfg { module, name });
                 }
             }
             out
